@@ -106,7 +106,29 @@ def _one(case) -> dict:
     from sa.model import REPO
     kind, props, cid, edits, expect = case
     overlay: Dict[str, str] = {}
-    for rel, qual, old, new in edits:
+    for ed in edits:
+        if len(ed) == 3:  # (file, dotted path, callable(segment) -> new segment | None)
+            rel, qual, fn = ed
+            full = "src/mygrad/" + rel
+            src = overlay.get(full)
+            if src is None:
+                with open(os.path.join(REPO, full), encoding="utf-8") as fh:
+                    src = fh.read()
+            try:
+                a, b = _segment(src, qual)
+                seg = fn(src[a:b])
+            except Exception:
+                seg = None
+            if seg is None:
+                return {"id": cid, "kind": kind, "status": "inapplicable", "detail": f"transformer not applicable in {rel}:{qual}"}
+            out = src[:a] + seg + src[b:]
+            try:
+                ast.parse(out)
+            except SyntaxError as e:
+                return {"id": cid, "kind": kind, "status": "inapplicable", "detail": f"transformer produced invalid syntax: {e}"}
+            overlay[full] = out
+            continue
+        rel, qual, old, new = ed
         if not apply_edit(REPO, "src/mygrad/" + rel, qual, old, new, overlay):
             return {"id": cid, "kind": kind, "status": "inapplicable", "detail": f"anchor text not found in {rel}:{qual}"}
     res = {"id": cid, "kind": kind, "status": "ok", "detail": ""}
